@@ -1,6 +1,7 @@
 (* Corr/Common.v — shared helpers of the correspondence checks (evaluated with vm_compute on files
    written by the harness; nothing here is used by a theorem). *)
 From AS Require Import Base.Str.
+From AS Require Export Corr.Pack.
 
 Fixpoint words (alpha : list ascii) (n : nat) : list string :=
   match n with
